@@ -177,7 +177,12 @@ Section Model.
       end
     end.
 
-  Record state := mkState { g_env : cells; g_threads : list thread }.
+  (* g_outer: the variable called `event` of the scope the sink was declared in, if the script
+     declared one (its value abstracted to a number).  The action binds its own `event` with
+     sinkVS.SetValue BEFORE sinkVS gets a parent, so the "assign to the variable of an outer
+     scope if there is one" rule of varsScope.setValue never sees it, and every later read
+     of `event` finds the sink scope's own binding first: no step reads or writes g_outer. *)
+  Record state := mkState { g_env : cells; g_threads : list thread; g_outer : option nat }.
 
   Fixpoint upd {A : Type} (l : list A) (n : nat) (x : A) : list A :=
     match l, n with
@@ -193,14 +198,16 @@ Section Model.
     | Some th =>
         match tstep sh t (g_env s) th with
         | None => None
-        | Some (env', th') => Some (mkState env' (upd (g_threads s) t th'))
+        | Some (env', th') => Some (mkState env' (upd (g_threads s) t th') (g_outer s))
         end
     end.
 
   Definition init_thread (ev : payload) : thread :=
     mkThread PBind Running ev no_cells None None None None.
 
-  Definition init (evs : list payload) : state := mkState no_cells (map init_thread evs).
+  Definition init_with (outer : option nat) (evs : list payload) : state :=
+    mkState no_cells (map init_thread evs) outer.
+  Definition init (evs : list payload) : state := init_with None evs.
 
   (* what invocation i reports to the engine *)
   Definition report (s : state) : list (option (option rerr)) := map t_ret (g_threads s).
@@ -234,6 +241,7 @@ Arguments t_mon {payload err0} _.
 Arguments t_ret {payload err0} _.
 Arguments g_env {payload err0} _.
 Arguments g_threads {payload err0} _.
+Arguments g_outer {payload err0} _.
 Arguments report {payload err0} _.
 Arguments results {payload err0} _.
 Arguments is_done {payload err0} _.
@@ -258,3 +266,4 @@ Definition cbody (p : cpayload) : option cerr :=
 Definition cstate := state cpayload cerr.
 Definition cstep (sh : sharing) : cstate -> nat -> option cstate := step cpayload cerr p_id cbody sh.
 Definition cinit : list cpayload -> cstate := init cpayload cerr.
+Definition cinit_with : option nat -> list cpayload -> cstate := init_with cpayload cerr.
